@@ -318,16 +318,46 @@ func addrKeys(addr ssa.Value, out map[string]bool) {
 }
 
 // instrKeys adds the keys an instruction may write directly (not via calls).
+// rootAlloc: is the address derived from an allocation made in this function?
+func rootAlloc(v ssa.Value) bool {
+	for {
+		switch x := v.(type) {
+		case *ssa.Alloc:
+			return true
+		case *ssa.FieldAddr:
+			v = x.X
+		case *ssa.IndexAddr:
+			if _, isPtr := under(x.X.Type()).(*types.Pointer); !isPtr {
+				return false
+			}
+			v = x.X
+		default:
+			return false
+		}
+	}
+}
+
 func (P *Prog) instrKeys(in ssa.Instruction, out map[string]bool) {
+	P.instrKeys2(in, out, true)
+}
+
+// instrKeys2: forLoop = false computes what is visible to callers (stores into
+// objects allocated by the function itself are not).
+func (P *Prog) instrKeys2(in ssa.Instruction, out map[string]bool, forLoop bool) {
 	switch x := in.(type) {
 	case *ssa.Store:
+		if !forLoop && rootAlloc(x.Addr) {
+			return
+		}
 		addrKeys(x.Addr, out)
 	case *ssa.MapUpdate:
 		out["M:"+typeName(x.Map.Type())] = true
 	case *ssa.Alloc:
 		// zero-initialisation of a fresh object: not visible to anyone else,
 		// but inside loops the cell is re-initialised each iteration.
-		addrKeys(x, out)
+		if forLoop {
+			addrKeys(x, out)
+		}
 	case *ssa.Send:
 		out["CH:"+typeName(x.Chan.Type())] = true
 	case *ssa.Select:
@@ -423,7 +453,7 @@ func (P *Prog) modset(fn *ssa.Function) map[string]bool {
 		}
 		for _, b := range f.Blocks {
 			for _, in := range b.Instrs {
-				P.instrKeys(in, o)
+				P.instrKeys2(in, o, false)
 				if c, ok := in.(ssa.CallInstruction); ok {
 					for _, g := range P.staticCallees(c.Common(), o) {
 						callees[f] = append(callees[f], g)
